@@ -7,7 +7,7 @@ Import ListNotations.
 Open Scope string_scope.
 
 (* no function of the library publishes an empty class-level container and fills it afterwards *)
-Theorem C20_sites : forall s, In s class_level_stores -> (let '(_, _, _, _, sh) := s in match sh with SSingleStore => true | SPublishThenFill => false end) = true.
+Theorem C20_sites : forall s, In s class_level_stores -> (let '(_, _, _, _, sh) := s in match sh with SSingleStore => true | _ => false end) = true.
 Proof. apply forallb_forall. vm_compute. reflexivity. Qed.
 Print Assumptions C20_sites.
 (* the objects held in those tables (XSDAttribute, XSDTree, XSDElement, XSDGroup instances) fill some of their own fields lazily: EVERY
@@ -15,6 +15,10 @@ Print Assumptions C20_sites.
    one store of a complete value per iteration): no default-then-overwrite, no fill after publication *)
 (* consumers only READ the shared class-level tables: no function of the library mutates in place (sort, append, item assignment, ...) a value it
    obtained from a table getter (get_xsd_attributes, ...) - read from the source on every run *)
+(* a class-level attribute that is read, changed and written back while the library works (a counter, a depth) is not a cache: C20_sites refuses
+   the shape (SReadModifyWrite), and this is why - one thread inside its bracket, the other sees a depth it never sees alone *)
+Example C20_global_counter_refuted : exists sched, nth_error (map seen (snd (crun sched 2))) 1 = Some [1].
+Proof. exact global_counter_refuted. Qed.
 Theorem C20_tables_read_only : shared_table_mutations = [].
 Proof. reflexivity. Qed.
 (* class-level slots are READ through the method resolution order and WRITTEN on the class in use.  Read from the class statements and the store
